@@ -150,5 +150,19 @@ int main(int argc, char **argv) {
         if(!range_ok(H, o, ctx)) return;
         o.units = 16384; if(i % 7 == 0) o.sample = ctx; o.nontrivial = true; };
       fams.push_back(F); }
+    { // Reset All Controllers (CC121) brings expression back to 127 while the key stays down: the sounding note must come out at the level a fresh note gets under the resulting settings
+      static const int VELS_Q[] = {1, 64, 127}; static const int ALGS_Q[] = {7, 4, 0}; static const int VOLS[] = {0, 1, 64, 127};
+      en::Family F; F.name = "reset_all_controllers_on_held_note"; F.count = 5 * 3 * 3 * 4; F.chunk = 1; F.budget_s = 120; F.describe = "5 volume models x algorithm {7,4,0} x velocity {1,64,127} x channel volume {0,1,64,127}: with the note held, expression set to every value 0..127 and then CC121; the total levels afterwards must equal those of a note struck on a second instance under the same volume with expression 127";
+      F.run = [](uint64_t i, en::CaseOut &o) { int model = 1 + (int)(i % 5), alg = ALGS_Q[(i / 5) % 3], vel = VELS_Q[(i / 15) % 3], vol = VOLS[i / 45];
+        std::string ctx = std::string(" [model ") + MODEL[model] + ", algorithm " + std::to_string(alg) + ", velocity " + std::to_string(vel) + ", channel volume " + std::to_string(vol) + ", CC121 on a held note]"; char b[300];
+        pl::Instance R; if(!setup(R, model, alg, 20, 0, 0)) { o.fail("C11/harness", "setup"); return; }
+        opn2_rt_controllerChange(R.dev, 0, 7, (OPN2_UInt8)vol); opn2_rt_noteOn(R.dev, 0, 60, (OPN2_UInt8)vel); uint8_t want[4]; read_tl(R, want);
+        pl::Instance H; if(!setup(H, model, alg, 20, 0, 0)) { o.fail("C11/harness", "setup"); return; }
+        opn2_rt_controllerChange(H.dev, 0, 7, (OPN2_UInt8)vol); opn2_rt_noteOn(H.dev, 0, 60, (OPN2_UInt8)vel);
+        for(int x = 0; x < 128; x++) { opn2_rt_controllerChange(H.dev, 0, 11, (OPN2_UInt8)x); opn2_rt_controllerChange(H.dev, 0, 121, 0); uint8_t t[4]; read_tl(H, t);
+            for(int op = 0; op < 4; op++) if(t[op] != want[op]) { snprintf(b, sizeof b, "expression %d, then CC121 (expression is 127 again) with the key down: slot %d total level %u, a fresh note under the same settings gets %u", x, op, t[op], want[op]);
+                o.fail(CARRIER[alg][op] ? "C11/held-note/level-after-controller-reset" : "C11/modulator-touched", b + ctx); return; } }
+        o.units = 128; if(i % 7 == 0) o.sample = ctx; o.nontrivial = true; };
+      fams.push_back(F); }
     return en::run_main(argc, argv, "C11", fams, TAGS, "non-trivial: the whole sub-grid was swept and every total-level write compared");
 }
